@@ -49,9 +49,10 @@ def run(ctx):
     g = gen_tables.gen_states(exe)
     ctx.notes.append('Gen/States.lean: %d rows from %d implementation cells (changed=%s)' % (g['rows'], g['raw_rows'], g['changed']))
     lean_ok = ctx.lean(MODULES)
-    ctx.audit_axioms(['TlsModel.Props.C08'])
-    if ctx.thorough:
-        ctx.leanchecker(MODULES)
+    if lean_ok:
+        ctx.audit_axioms(['TlsModel.Props.C08'])
+        if ctx.thorough:
+            ctx.leanchecker(MODULES)
 
     # exhaustive cell sweep: every dumped cell replayed as an `st` line through the implementation AND the model.
     # The model equals the specification (theorem transition_eq_spec), so a cell where they differ is a concrete
